@@ -490,7 +490,7 @@ func compareView(kind string, pred ViewPred, obs *obsView) string {
 	if !reflect.DeepEqual(a, b) {
 		aj, _ := json.Marshal(a)
 		bj, _ := json.Marshal(b)
-		return fmt.Sprintf("view differs: observed %s predicted %s", firstDiff(bj, aj), "")
+		return "view differs: observed " + firstDiff(bj, aj)
 	}
 	return ""
 }
